@@ -102,6 +102,29 @@ def run(ctx):
         ctx.evaluations += 1
         if not cmp3(one, m1, np.abs(one[0]).max()):
             ctx.fail("correspondence", "one Newton update of the e-beam solver differs from Radial.step", inp=dict(desc, one_step=True))
+        # ---- over-relaxed e-beam variant (Newton update + extrapolation every fifth pass): BLAS dot / norm may sum in another order
+        # than the model, so the comparison is at 1e-8 of the potential scale (the exit test asks for 1e-10 relative change)
+        if k % 2 == 0 or ctx.thorough:
+            sor = rd.boltzmann_radial_potential_linear_density_ebeam_sor(r, cur, r_e, e, col(nl), col(kT), col(q), first_guess=None if fg is None else fg.copy(), ldu=ldu)
+            line = (f"bpsor {bits(cur)} {bits(r_e)} {bits(e)} " + " ".join(farr(v) for v in (r, nl, kT, q)) + " " + fmt_opt(fg) + " "
+                    + ("1 " + " ".join(farr(v) for v in ldu) if ldu is not None else "0"))
+            msor = parse_bp(D.ask(line), ng, ns)
+            ctx.evaluations += 1; ctx.count("sor_cases")
+            if np.all(np.isfinite(sor[0])):
+                ctx.seen(("sor", k))
+                sc = np.abs(sor[0]).max()
+                okp = np.asarray(msor[1]).shape == sor[0].shape and np.abs(np.asarray(msor[1]) - sor[0]).max() <= 1e-8 * sc
+                oks = np.abs(np.asarray(msor[3]) - np.asarray(sor[2])).max() <= 1e-7
+                okn = np.all(np.abs(np.asarray(msor[2]).ravel() - np.asarray(sor[1]).ravel()) <= 1e-7 * np.maximum(np.abs(np.asarray(sor[1]).ravel()), 1e-300))
+                if not (okp and oks and okn):
+                    ctx.fail("correspondence", f"boltzmann_radial_potential_linear_density_ebeam_sor differs from Radial.bpEbeamSor ({msor[0]} passes, species q={q.tolist()})", inp=dict(desc, variant="ebeam_sor"))
+                # converged over-relaxed and plain Newton solutions are the same fixed point
+                if rel <= 1e-10 and np.abs(sor[0] - phi_eb).max() > 1e-6 * sc:
+                    ctx.fail("correspondence", "over-relaxed and plain e-beam solvers converge to different potentials", inp=dict(desc, variant="ebeam_sor_vs_newton"))
+                if sor[0][-1] != 0:
+                    ctx.fail("correspondence", f"over-relaxed e-beam solver: wall potential {sor[0][-1]!r}", inp=dict(desc, variant="ebeam_sor_wall"))
+            else:
+                ctx.count("non_convergent_skipped")
         # ---- static variants
         rho0 = np.where(r <= r_e, -cur / (np.sqrt(2 * Q_E * e / M_E) * PI * r_e ** 2), 0.0)
         if k % 2:   # static background that reaches the wall node (halo / residual fill): the boundary condition must still hold
